@@ -214,6 +214,21 @@ def check(rep, F, tier, replay=None):
             rep.violation("SIB-refsize", "MintBuilder|%s" % ",".join(sorted(vb - va)), "MintBuilder::get_ref_inputs puts the reference input of a %s mint script into the body, but get_script_ref_inputs_with_size does not report its size: the reference-script fee for that script is missing from min_fee" % "/".join(sorted(vb - va)), {})
     else:
         rep.lost("MintBuilder reference-input functions not found")
+    # FEE-coupdate: a fee request replaces whatever fee was computed before
+    rep.rule("FEE-coupdate", "every function that stores TransactionBuilder.fee_request (set_fee, set_min_fee) also stores TransactionBuilder.fee: a fee computed by an earlier change calculation cannot outlive a later request - get_fee_if_set prefers the computed fee, so without the reset `set_fee(X)` after add_change_if_needed is silently ignored and build_tx returns the old fee")
+    TB__ = "builders::tx_builder::TransactionBuilder"
+    n_fr = 0
+    for fid_, fn_ in F.fns.items():
+        if "/tests/" in fn_["file"] or F.is_derived(fid_):
+            continue
+        ffs_ = ff.FnFields(F, fid_)
+        if not ffs_.stores_to(TB__, "fee_request"):
+            continue
+        n_fr += 1
+        rep.inst("FEE-coupdate")
+        if not ffs_.stores_to(TB__, "fee"):
+            rep.violation("FEE-coupdate", F.key(fid_), "%s stores the fee request but leaves a previously computed fee in place: after add_change_if_needed (fee 165 853) set_fee(265 853) is ignored and build_tx returns fee 165 853 - neither `used exactly` nor `the build fails`" % F.key(fid_), {})
+    rep.floor("functions storing a fee request", 2, n_fr)
     # REFSIZE-all: every source entry of a reference script is added to the total
     import hirq as H_
     from ruleutil import hir_must as _must
